@@ -80,7 +80,7 @@ func (rm *RowsMetadata) Flags() (flag primitive.RowsFlag) {
 	if rm.NewResultMetadataId != nil {
 		flag |= primitive.RowsFlagMetadataChanged
 	}
-	if rm.ContinuousPageNumber != 0 {
+	if rm.ContinuousPageNumber != 0 || rm.LastContinuousPage {
 		flag |= primitive.RowsFlagDseContinuousPaging
 		if rm.LastContinuousPage {
 			flag |= primitive.RowsFlagDseLastContinuousPage
